@@ -67,8 +67,8 @@ fn run(cx: &Cx) {
          execute seam. Direct: maximum/minimum/multiple_of × {i8 i16 i32 i64 isize u8 u16 u32 u64 usize f32 f64} × bound type {own type, i64, i128, f64}; \
          ALL values × ALL bounds of the type (8-bit, plus every integer and half-integer bound in ±300), ALL values × the bounds menu (16-bit), dense menu (±d around 0 and ±2^k, k ≤ 64) × \
          bounds menu (wider integers), float menu incl. ±0, NaN, ±inf, subnormals, neighbours of every menu integer (f32/f64); bounds menu = {type min, type max of every integer type, −1, 0, 1, 100, 2^24, 2^53, …} \
-         with both neighbours. Length/regex validators × {String, Box<str>, Arc<str>, ID} × every string of ≤ 3 (thorough 4) symbols over {a b 0 é 😀 U+0301 LF (c d)} plus long strings × 52 length bounds / 7 regexes; \
-         max_items/min_items × 6 list types × 23 lengths × the same bounds. Execute: one root field per annotated site (listed in coverage.execute_values_per_site) over five derive schemas — #[Object] arguments, InputObject fields (bare and inside a list), \
+         with both neighbours. Length/regex validators × {String, Box<str>, Arc<str>, ID} × every string of ≤ 3 (thorough 4) symbols over {a b 0 é 😀 U+0301 LF (c d)} plus long strings × the length-bounds menu (coverage.direct_strings) / 7 regexes; \
+         max_items/min_items × 6 list types × the lengths menu (coverage.direct_lists) × the same bounds. Execute: one root field per annotated site (listed in coverage.execute_values_per_site) over five derive schemas — #[Object] arguments, InputObject fields (bare and inside a list), \
          #[ComplexObject] arguments, #[Subscription] arguments, OneofObject variants; Option<T>, Vec<T>, list forms, several validators per site; values derived from the site's bounds, \
          the type's extremes and the signed/unsigned and float-precision edges (all 256 values for the 8-bit types), each as literal and as variable(s), in both validation modes. \
          Non-trivial = cases where the predicate holds and the implementation agrees (direct: returned Ok; execute: resolver ran once); counted distinct by construction (menus are de-duplicated).",
